@@ -317,7 +317,8 @@ def write_evidence(pid, tier, seed, spec, records, violations, known_hits, incon
         inconclusive=[dict(unit=n, reasons=r) for (n, r) in inconclusive],
         unexplored=[dict(unit=n, reasons=r) for (n, r) in unexplored],
     )
-    os.makedirs(os.path.join(core.VERIF, "evidence"), exist_ok=True)
-    with open(os.path.join(core.VERIF, "evidence", pid + ".json"), "w") as f:
+    evdir = os.environ.get("KV_EVIDENCE_DIR") or os.path.join(core.VERIF, "evidence")   # (seed evaluations write elsewhere)
+    os.makedirs(evdir, exist_ok=True)
+    with open(os.path.join(evdir, pid + ".json"), "w") as f:
         json.dump(ev, f, indent=1)
     return ev
